@@ -1244,6 +1244,31 @@ def run(chk):
         if over:
             chk.violation(r_as, key + ":default", "assign_deck (%s): a defaulted deck entry (n*) overwrites a cell whose status is %s, i.e. a cell that already has a value: what an earlier ADD / MULTIPLY / MINVALUE / OPERATE or the top-layer distribution left there is reset to the keyword default by a later assignment that merely defaults the cell" % (where, over), ad["file"], n["l"])
 
+    # ---- C12.defregion: which region set a defaulted region-set item means
+    r_dr = chk.rule("C12.defregion", "default_region_keyword(deck) - the region set ADDREG / EQUALREG / MULTIREG / COPYREG use when their region-set item is defaulted - is MULTNUM exactly when GRIDOPTS is present AND its NRMULT item is positive, and FLUXNUM otherwise (decision table; the documented rule, stated above the function)", floor=1)
+    from verif import dtable as _dt
+    drf = [f for f in fx.fns if f["n"] == "default_region_keyword" and f.get("body")]
+    if len(drf) != 1:
+        raise core.AnalysisBroken("default_region_keyword: %d definitions" % len(drf))
+    drf = drf[0]
+    dk = drf["params"][0]["n"]
+    try:
+        got_dr = _dt.table(drf)
+    except _dt.NotATable as e_:
+        got_dr = None
+        chk.violation(r_dr, "table", "default_region_keyword is no longer a dispatch over its conditions (%s)" % e_, drf["file"], drf["l"])
+    if got_dr is not None:
+        cl_ = lambda t_: re.sub(r"const std::string\{(\"[^\"]*\"), <default>\}|std::string\{(\"[^\"]*\"), <default>\}", lambda m_: m_.group(1) or m_.group(2), t_).replace(dk, "DECK") if isinstance(t_, str) else t_
+        atoms_ = [cl_(a_) for a_ in got_dr[0]]
+        order_ = sorted(range(len(atoms_)), key=lambda i_: atoms_[i_])
+        got2 = ([atoms_[i_] for i_ in order_], {tuple(k_[i_] for i_ in order_): cl_(v_) for k_, v_ in got_dr[1].items()})
+        A_G = 'DECK.hasKeyword("GRIDOPTS")'
+        A_N = 'DECK["GRIDOPTS"].back().getRecord(0).getItem("NRMULT").get(0) > 0'
+        diffs_ = _dt.same_table(got2, [A_G, A_N], lambda v: '"MULTNUM"' if (v[A_G] and v[A_N]) else '"FLUXNUM"')
+        chk.instance(r_dr, "table", sample=dict(atoms=got2[0], outcomes=sorted(set(got2[1].values()))))
+        if diffs_:
+            chk.violation(r_dr, "table", "default_region_keyword: %s - region operations with a defaulted region set then select their cells from the wrong region array" % "; ".join(diffs_[:3]), drf["file"], drf["l"])
+
     # ---- C12.typed: the integer branch of a handler is the floating-point branch for another element type
     r_ty = chk.rule("C12.typed", "keyword handlers of FieldProps.cpp that dispatch on the element type of the array (`if (supported<double>(kw)) {..} if (supported<int>(kw)) {..}` on the same name): (a) the integer branch is not empty - a record naming an integer array is applied or rejected, never dropped; (b) a function that both branches call with a cell list (an argument of the Box::cell_index list type) gets the same list expression in both - the same keyword never touches different cells depending on the element type of the array", floor=2)
     tfx = chk.facts([FP])
